@@ -816,7 +816,7 @@ def run_fixed(ctx, case, stream='legacy'):
 def correspond(ctx, stream='legacy'):
     for case in CORPUS:
         run_fixed(ctx, case, stream)
-    for _ in range(ctx.n(60, 700)):
+    for _ in range(ctx.n(60, 400)):
         random_case(ctx, ctx.rng, stream)
 
 
